@@ -963,7 +963,7 @@ func steps() []stepDef {
 		{"heartbeat-manual", 2, stepHeartbeatCall},
 		{"heartbeat-bad-rate", 2, stepHeartbeatBadRate},
 		{"heartbeat-ping", 1, stepHeartbeatWait},
-	}, append(authIOSteps(), replyFaultSteps()...)...)
+	}, append(append(authIOSteps(), replyFaultSteps()...), bearerSteps()...)...)
 }
 
 // ---------- monitors ----------
@@ -1096,6 +1096,22 @@ func probes() []probeDef {
 			}
 			return probeObs{Triple: protos.StatusTriple(ps.PreSend(erpc.TypeCall, "/a/echo", nil, nil)), full: true}
 		}},
+		{"pre-phase-misuse", func(w *world) probeObs {
+			// the other pre-phase operations on an established session: all must report the pristine Invalid Operation status
+			ps, ok := w.linkB().A.(erpc.PreSession)
+			if !ok {
+				return probeObs{Stuck: "no PreSession"}
+			}
+			m := ps.PreReceive(func(erpc.Header) interface{} { return nil })
+			t := protos.StatusTriple(m.Status())
+			socket.PutMessage(m)
+			var res []byte
+			pc := protos.StatusTriple(ps.PreCall("/a/echo", []byte("x"), &res))
+			req := socket.NewMessage()
+			req.SetSeq(1)
+			pr := protos.StatusTriple(ps.PreReply(req, nil, nil))
+			return probeObs{Triple: t, Extra: fmt.Sprintf(" PreCall=%+v PreReply=%+v", pc, pr), full: true}
+		}},
 		{"dial-failed", func(w *world) probeObs {
 			if w.deadAddr == "" {
 				return probeObs{Stuck: "no dead address"}
@@ -1117,7 +1133,7 @@ func probeKey(o probeObs) protos.Triple {
 
 var expectProbe = map[string]int32{
 	"closed-session-call": 102, "closed-session-push": 102, "pending-call-cut": 102, "unknown-route-call": 404, "bad-body-call": 400,
-	"mtype-unsupported": 102, "handler-panic-call": 500, "write-failed-call": 104, "presend-unprepared": 1, "dial-failed": 105,
+	"mtype-unsupported": 102, "handler-panic-call": 500, "write-failed-call": 104, "presend-unprepared": 1, "pre-phase-misuse": 1, "dial-failed": 105,
 }
 
 type monitor struct {
@@ -1337,7 +1353,7 @@ func main() {
 			perClass[d.class] += time.Since(t0)
 			core.Add("evaluations", 1)
 			core.Add("steps/"+d.class, 1)
-			if os.Getenv("C15_DEBUG") == "2" && (strings.HasPrefix(d.class, "auth-re") || strings.HasPrefix(d.class, "reply-fault")) {
+			if os.Getenv("C15_DEBUG") == "2" && (strings.HasPrefix(d.class, "auth-re") || strings.HasPrefix(d.class, "reply-fault") || strings.HasPrefix(d.class, "bearer-") || strings.HasPrefix(d.class, "checker-")) {
 				fmt.Fprintf(os.Stderr, "note %s: %s\n", d.class, res.note)
 			}
 			if res.effective {
